@@ -410,7 +410,14 @@ class E2ECase:
             got = []
             seeder.overlay.on_raw_data = lambda circ, org, data: got.append(("seeder", circ.circuit_id, data))
             downloader.overlay.on_raw_data = lambda circ, org, data: got.append(("downloader", circ.circuit_id, data))
-            payload = bt_payload(c["size"], c["seed"] & 0xFF)
+            shape = c.get("shape", "bt")
+            if shape == "bt" or c["size"] < 23:
+                payload = bt_payload(c["size"], c["seed"] & 0xFF)
+            elif shape == "tunnel":
+                # starts with the tunnel overlay's own prefix (message number 254 is not in use)
+                payload = w.prefix + b"\xfe" + bt_payload(c["size"] - 23, c["seed"] & 0xFF)
+            else:
+                payload = (b"\x00\x01" if shape == "ipv8_v1" else b"\x00\x02") + ipv8_payload(c["size"], c["seed"] & 0xFF)[2:]
             back = c["kind"] == "e2e_s2d"
             sender, scirc = (seeder, s) if back else (downloader, d)
             want = [("downloader", d.circuit_id, payload)] if back else [("seeder", s.circuit_id, payload)]
@@ -465,7 +472,8 @@ class E2ECase:
                      if fl.seq > seq0 and parse_cell(fl.data, w.prefix) is not None
                      and not parse_cell(fl.data, w.prefix)["plaintext"]]
             body_hit = state["hit"] is not None and state["hit"] >= CELL_HDR
-            info["cls"] = "e2e/%dhop/%s/%s/%s" % (hops, c["kind"], size_class(c["size"]), fault["type"] if fault else "none")
+            info["cls"] = "e2e/%dhop/%s/%s/%s/%s" % (hops, c["kind"], size_class(c["size"]), shape,
+                                                     fault["type"] if fault else "none")
             info["nontrivial"] = (c["size"] >= 8 and not fault) or body_hit
             info["desc"] = ("e2e", hops, c["kind"], size_class(c["size"]), fault and (fault["type"], fault.get("link"),
                                                                                        "body" if body_hit else state["hit"]))
@@ -572,7 +580,8 @@ def _e2e_strategy():
                                              "byte": st.integers(22, 400), "mask": st.integers(1, 255)}))
     return st.fixed_dictionaries({"seed": st.integers(0, 10_000), "hops": st.integers(1, 2),
                                   "kind": st.sampled_from(["e2e_d2s", "e2e_s2d"]),
-                                  "size": st.sampled_from([2, 8, 23, 64, 300, 1000]) | st.integers(2, 1200), "fault": fault})
+                                  "size": st.sampled_from([2, 8, 23, 64, 300, 1000]) | st.integers(2, 1200),
+                                  "shape": st.sampled_from(["bt", "ipv8", "ipv8_v1", "tunnel"]), "fault": fault})
 
 
 def _random_shard(ctx: Ctx, shard: int, nshards: int, n: int) -> None:
